@@ -5,8 +5,8 @@ import ast
 from typing import Callable, Dict, Iterable, List, Optional, Sequence, Set, Tuple
 
 from . import AnalysisError, flow, states
-from .index import index, Site, in_pkg
-from .loader import Func, Repo
+from .index import index, Site, in_pkg, enclosing_func
+from .loader import Func, Repo, dotted, parent
 from .report import Ctx
 
 ENTITY_OPS = "nrel/hive/state/entity_state/entity_state_ops.py"
@@ -804,3 +804,137 @@ def rule_enter_installs(ctx: Ctx, clause: str, rule="TS.enter-installs"):
                               f"after the previous activity's exit the vehicle is in neither activity's books",
                       construct=f"{sc.name}.enter:success-without-install")
     return n
+
+
+# ------------------------------------------------------------------------------------------ swallowed regions
+def _catches_all(h: ast.ExceptHandler) -> bool:
+    if h.type is None:
+        return True
+    names = [dotted(t) for t in (h.type.elts if isinstance(h.type, ast.Tuple) else [h.type])]
+    return any(n in ("Exception", "BaseException") for n in names)
+
+
+def _swallows(h: ast.ExceptHandler) -> bool:
+    """The handler neither returns, raises nor records the exception: control continues after the try as if nothing
+    had happened."""
+    for s in h.body:
+        for n in ast.walk(s):
+            if isinstance(n, (ast.Return, ast.Raise)):
+                return False
+    return all(isinstance(s, ast.Pass) or (isinstance(s, ast.Expr) and isinstance(s.value, (ast.Call, ast.Constant))) for s in h.body)
+
+
+def _expr_nodes(fn_node):
+    """Nodes of a function body without annotations and without nested function/class bodies."""
+    stack = list(fn_node.body)
+    while stack:
+        n = stack.pop()
+        yield n
+        for name, val in ast.iter_fields(n):
+            if name in ("annotation", "returns", "type_comment"):
+                continue
+            vals = val if isinstance(val, list) else [val]
+            for v in vals:
+                if isinstance(v, (ast.FunctionDef, ast.AsyncFunctionDef, ast.ClassDef, ast.Lambda)):
+                    continue
+                if isinstance(v, ast.AST):
+                    stack.append(v)
+
+
+def _guarded(node: ast.AST, denom: ast.AST) -> bool:
+    """Some enclosing if / conditional expression / preceding early exit tests a name the denominator is made of."""
+    names = {n.id for n in ast.walk(denom) if isinstance(n, ast.Name)} | {flow.dump(denom)}
+    if not names:
+        return False
+    cur = node
+    while cur is not None and not isinstance(cur, (ast.FunctionDef, ast.AsyncFunctionDef)):
+        par = parent(cur)
+        if isinstance(par, (ast.If, ast.IfExp, ast.While)) and cur is not par.test:
+            if {n.id for n in ast.walk(par.test) if isinstance(n, ast.Name)} & names:
+                return True
+        cur = par
+    # early exits before the node in the same function: `if d == 0: return ...`
+    fn = cur
+    if fn is not None:
+        for s in ast.walk(fn):
+            if isinstance(s, ast.If) and s.lineno < node.lineno and any(isinstance(b, (ast.Return, ast.Raise, ast.Continue)) for b in s.body):
+                if {n.id for n in ast.walk(s.test) if isinstance(n, ast.Name)} & names:
+                    return True
+    return False
+
+
+def partial_operations(fn: Func):
+    """Operations in `fn` that raise on part of their well-typed domain: division / modulo by a value that is not a
+    non-zero literal and is not tested beforehand, key or index lookups, explicit raise / assert, one-argument next()."""
+    out = []
+    for n in _expr_nodes(fn.node):
+        if isinstance(n, ast.BinOp) and isinstance(n.op, (ast.Div, ast.FloorDiv, ast.Mod)):
+            if isinstance(n.op, ast.Mod) and isinstance(n.left, (ast.Constant, ast.JoinedStr)) and not isinstance(getattr(n.left, "value", None), (int, float)):
+                continue  # string formatting
+            r = n.right
+            if isinstance(r, ast.Constant) and isinstance(r.value, (int, float)) and r.value != 0:
+                continue
+            if _guarded(n, r):
+                continue
+            out.append((n, f"division by `{flow.dump(r)[:60]}`, which may be zero (ZeroDivisionError)"))
+        elif isinstance(n, ast.Subscript) and isinstance(n.ctx, ast.Load) and not isinstance(n.slice, ast.Slice):
+            out.append((n, f"lookup `{flow.dump(n)[:60]}` (KeyError / IndexError when absent)"))
+        elif isinstance(n, ast.Raise):
+            out.append((n, "explicit raise"))
+        elif isinstance(n, ast.Assert):
+            out.append((n, "assert"))
+        elif isinstance(n, ast.Call) and dotted(n.func) == "next" and len(n.args) == 1:
+            out.append((n, "next() without a default (StopIteration)"))
+    return out
+
+
+def rule_swallowed_regions(ctx: Ctx, clause: str, rule="EV.swallowed", min_regions=1, depth=2):
+    """Where the step path wraps work in a catch-everything handler that carries on silently, whatever the work was
+    meant to record is lost without a trace when it raises. The repository has one such region (the pickup report in
+    pick_up_trip); the functions it calls must contain no operation that raises on part of its well-typed domain."""
+    repo = ctx.repo
+    n_regions = n_funcs = 0
+    for fn in step_path_funcs(repo):
+        for t in ast.walk(fn.node):
+            if not isinstance(t, ast.Try) or enclosing_func(t) is not fn:
+                continue
+            if not any(_catches_all(h) and _swallows(h) for h in t.handlers):
+                continue
+            n_regions += 1
+            work = []
+            for s in t.body:
+                for c in ast.walk(s):
+                    if isinstance(c, ast.Call):
+                        f = repo.resolve_call(fn.module, c)
+                        if f is not None:
+                            work.append((f, 1, c))
+                # partial operations written directly in the try body
+            seen = set()
+            not_followed = set()
+            while work:
+                f, d, via = work.pop()
+                if (f.relpath, f.qualname) in seen:
+                    continue
+                seen.add((f.relpath, f.qualname))
+                n_funcs += 1
+                bad = partial_operations(f)
+                inst = f"{fn.qualname}: swallowed region at line {t.lineno} calls {f.qualname}"
+                if bad:
+                    for node, what in bad:
+                        ctx.violation(clause, rule, inst, f, node,
+                                      why=f"{what}; the exception is swallowed by the catch-all handler at {fn.relpath}:{t.lineno}, so what the region was to record is silently lost",
+                                      construct=f"{fn.qualname}:swallowed:{f.qualname}:{type(node).__name__}:{flow.dump(node)[:60]}")
+                else:
+                    ctx.ok(clause, rule, inst, f, f.node, why="no division by an untested value, no key/index lookup, no raise/assert/next() in the callee")
+                if d < depth:
+                    for c in _expr_nodes(f.node):
+                        if isinstance(c, ast.Call):
+                            g = repo.resolve_call(f.module, c)
+                            if g is not None:
+                                work.append((g, d + 1, c))
+                            elif isinstance(c.func, ast.Attribute):
+                                not_followed.add(c.func.attr)
+            ctx.info(clause, rule, f"{fn.qualname}: method calls not followed inside the swallowed region", fn, t, why=", ".join(sorted(not_followed)))
+    if n_regions < min_regions:
+        ctx.soft_fail(f"{rule}: expected at least {min_regions} swallowed region(s) in the step path, found {n_regions}")
+    return n_regions, n_funcs
